@@ -897,6 +897,68 @@ META = {
         "level_note": "The shape checker is written from the property's clauses over the harness's own schema model; re-execution trusts apollo-compiler's executor (property C26) as a second witness, never as the only one.",
         "design_ref": "DESIGN.md section 6, C33",
     },
+    "C30": {
+        "budget": {"quick": 30, "thorough": 300},
+        "plugin": "memsan",
+        "rule": "histories: 252 scripted histories (7 constructors x 12 edge file ids x 3 texts, every operation kind), then random single-threaded histories of 20-200 operations "
+                "over <= 8 name slots, <= 8 node slots, one HashSet<Name>, 3 valid texts + 1 invalid text, file ids over the whole 63-bit range (edges 1,2,3,2^62,2^63-1, single bits +-1, uniform), "
+                "then multi-threaded histories (2-8 threads x 1-3 rounds x 20-200 operations per thread, names and nodes exchanged through channels, the same 3 backing Arc<str> cloned/dropped concurrently). "
+                "Oracle: shadow model (text, location, static flag, Arc identity, eq/hash/ord, set membership, node allocation groups, payload construct/drop balance) and "
+                "Arc::strong_count(handle) == live names sharing it + harness handles after every single-threaded step and at every join point; live heap bytes return to the baseline after each history. "
+                "distinct_nontrivial = distinct single-threaded histories in which at least 3 live names shared one backing Arc<str>, plus multi-threaded histories that sent names between threads and had >= 2 names sharing a backing at a join point. "
+                "Variants asan / tsan / miri (/ memcheck in thorough) rerun the same monitor; their measured counts are the `<variant>:` counters",
+        "assumptions": COMMON_ASSUMPTIONS + [
+            "locations are attached through the verif-hooks constructor SourceSpan::__verif_new; file id 2 (the crate-private FileId::NONE, not constructible through the public API) is modelled as 'no location' for names, as documented on the field",
+            "Name::with_location is only called with a span whose length equals the name's length (its documented debug assertion)",
+            "multi-threaded histories are judged at join points (counts by inspection with Arc::ptr_eq); the schedules are those the OS / TSan / Miri's seeded scheduler produced, not all schedules",
+            "Miri runs only Name/Node/FileId/SourceSpan operations (anything that parses reaches rowan 0.16.1, which Miri rejects under both aliasing models); Tree Borrows is on",
+            "a variant that could not be built or run is reported as inconclusive for that variant",
+        ],
+        "floors": {"any": {
+            "phase": ["single_thread", "multi_thread"],
+            "op": ["new", "new_static", "new_unchecked", "new_static_unchecked", "from_arc_unchecked", "try_from_arc", "name_macro", "clone", "drop",
+                   "with_location", "location", "as_str", "as_static_str", "to_cloned_arc", "drop_handle", "into_arc", "to_component",
+                   "set_insert", "set_lookup", "set_remove", "eq_hash", "node_new", "node_new_parsed", "node_new_str", "node_new_str_parsed",
+                   "node_clone", "node_drop", "node_make_mut", "node_get_mut", "node_ptr_eq", "node_same_location", "node_eq", "node_to_component",
+                   "mt_from_handle", "mt_clone", "mt_drop", "mt_send", "mt_send_clone", "mt_recv", "mt_with_location", "mt_into_arc",
+                   "mt_node_send_clone", "mt_node_make_mut", "mt_node_get_mut"],
+            "mt_threads": ["2", "4", "8"],
+        }},
+        "crash_class": "name-node-history",
+        "technique": "runtime monitoring: operation interpreter with a shadow model and reference-count invariant over generated Name/Node histories (single- and multi-threaded), counting allocator, plus AddressSanitizer/LeakSanitizer, ThreadSanitizer, Miri (Tree Borrows, many seeds) and valgrind memcheck runs of the same monitor",
+        "level_text": "Exploration: 10^5-10^6 operation histories over a small pool are interpreted against a shadow model with the strong-count invariant checked after every step; the same monitor is rerun under ASan/LSan, TSan, Miri and (thorough) memcheck. Memory safety holds for the histories and schedules run, not for all.",
+        "level_note": "Trusts Arc::strong_count/Arc::ptr_eq of std as observations, the sanitizers' and Miri's reports, and the counting allocator's byte accounting; red-zone sanitizers miss some classes, hence three mechanisms.",
+        "design_ref": "DESIGN.md section 6, C30",
+    },
+    "C31": {
+        "budget": {"quick": 30, "thorough": 300},
+        "shards": {"quick": 8, "thorough": 8},
+        "plugin": "memsan",
+        "rule": "per worker process, in this order: (e) cold start - 4-16 threads released by a barrier use SchemaBuilder::built_in, MetaFieldDefinitions, BuiltInScalars and the per-file line/column cache for the first time simultaneously, digests compared with the sequential digest "
+                "(further fresh processes are run by the plugin: `cold:` counters); (a) FileId::new() from 2-16 barrier-released threads x 10^5 (thorough up to 10^6) calls, per-thread logs, sort + adjacent compare, none of 0/1/2, no bit 63; "
+                "(b) counter preset to 2^63-k for every k in 1..=64 with 2-16 threads: ids >= 2^63-k pairwise distinct, every id >= 3 without tag bit (duplicates after the wrap are allowed by the property); the counter is restored above the high-water mark afterwards; "
+                "(c) Name::with_location -> location() for all ids 2^b-1, 2^b, 2^b+1 (b < 63), the edge list and random 63-bit ids, both tags; "
+                "(d) 2-16 threads parse + validate + introspect 8-24 generated executable documents against ONE shared Valid<Schema>, per-input digests (serialized document, diagnostics as displayed, introspection JSON) equal the sequential digests. "
+                "distinct_nontrivial = distinct id rounds + wrap cases with ids on both sides of the wrap + shared-schema rounds whose inputs include diagnostics and introspection + cold starts",
+        "assumptions": COMMON_ASSUMPTIONS + [
+            "the wrap branch is reached through the verif-hooks setter FileId::__verif_set_next; no other code of the worker allocates file ids while an id workload runs",
+            "only inputs whose sequential digest is stable over two sequential executions are compared with the threads' digests; a differing thread digest is first re-checked against 20 further sequential executions",
+            "schedules are those produced by the OS on an oversubscribed machine, by TSan and by Miri's seeded scheduler with a raised preemption rate (3 threads x 4 allocations per seed); no exhaustive interleaving enumeration is claimed",
+            "Miri runs only the id and pack workloads (no parsing: rowan)",
+            "a variant that could not be built or run is reported as inconclusive for that variant",
+        ],
+        "floors": {"any": {
+            "phase": ["cold_start", "ids", "wrap", "pack", "shared_schema"],
+            "id_threads": ["2", "3", "4", "8", "16"],
+            "wrap_k": [str(k) for k in range(1, 65)],
+            "shared_threads": ["2", "16"],
+        }},
+        "crash_class": "fileid-shared-state",
+        "technique": "runtime monitoring: offline checker over per-thread id logs (plain and across a forced 63-bit wrap), pack/unpack round trips over the 63-bit range, sequential-vs-concurrent digest comparison on a shared schema, barrier-released cold-start races in fresh processes; plus ASan, TSan and Miri (seeded scheduler) runs",
+        "level_text": "Exploration: 10^7 concurrently allocated ids are checked for distinctness, every k in 1..=64 of the forced wrap is run with 2-16 threads, pack/unpack is checked at every bit boundary, and shared-schema work from up to 16 threads is compared with sequential results; TSan and Miri's seeded scheduler look for races. Interleavings are sampled, not enumerated.",
+        "level_note": "Trusts the verif-hooks accessors (__verif_raw, __verif_set_next) as observations of the counter, FNV digests of Display/serde output as the comparison of results, and the sanitizers' and Miri's reports.",
+        "design_ref": "DESIGN.md section 6, C31",
+    },
 }
 
 # Properties not claimed, with the reason (kept current; see DESIGN.md section 10).
